@@ -115,9 +115,15 @@ def _mk_track_distances(na, nb):
                 if e.outcomes.get(dg) == 0:
                     exp.append(dg)
         vm.check(BOOL(len(got) == len(exp)), "exactly one result per observation pair for which the metric yields a value")
-        for g, dg in zip(got, exp):
+        remaining = list(exp)
+        for g in got:
             vm.check(z3.And(fld(P, g, 'ObservationMetricOk', 'from').e == ida.e, fld(P, g, 'ObservationMetricOk', 'to').e == idb.e), "results carry the right ids")
-            vm.check(struct_eq(fld(P, g, 'ObservationMetricOk', 'attribute_metric'), SOME(Opaque('MetricObject', dg))), "results in cartesian order with the metric's values")
+            # the multiset of results is what the property fixes, not their order
+            am = fld(P, g, 'ObservationMetricOk', 'attribute_metric')
+            hit = [dg for dg in remaining if am.variant == 1 and isinstance(am.fields[0], Opaque) and am.fields[0] == Opaque('MetricObject', dg)]
+            vm.check(BOOL(len(hit) >= 1), "every result carries the metric's value of one observation pair, each pair once")
+            if hit:
+                remaining.remove(hit[0])
     return q
 
 
@@ -414,7 +420,7 @@ TS = "similari::track::store::TrackStore::"
 W = TS + "handle_store_ops"
 TD = "similari::track::store::track_distance::"
 MIR = [
-    MQ("c10_track_distances_1x1", "quick", _mk_track_distances(1, 1), "Track::distances: error cases and one result per pair with a metric value, cartesian order",
+    MQ("c10_track_distances_1x1", "quick", _mk_track_distances(1, 1), "Track::distances: error cases and one result per pair with a metric value",
        "1x1 observations, class present/absent on each side, arbitrary compatible/metric", [T], spec_calls=_dist_calls, replay=_replay_sweep),
     MQ("c10_track_distances_2x2", "quick", _mk_track_distances(2, 2), "Track::distances: same", "2x2 observations", [T], spec_calls=_dist_calls, replay=_replay_sweep),
     MQ("c10_track_distances_3x2", "thorough", _mk_track_distances(3, 2), "Track::distances: same", "3x2 observations", [T], spec_calls=_dist_calls, replay=_replay_sweep),
